@@ -156,9 +156,30 @@ def multi_join():
     return out
 
 
+def windows():
+    """Window functions in derived tables / CTEs under filters and joins: the window guards of pushdown_predicates and
+    merge_subqueries, and projection pruning around them."""
+    out = []
+    ws = ["ROW_NUMBER() OVER (PARTITION BY a ORDER BY b)", "COUNT(*) OVER (PARTITION BY a)", "SUM(b) OVER (PARTITION BY a ORDER BY b)", "MAX(b) OVER ()"]
+    for w in ws:
+        inner = f"SELECT a, b, {w} AS w FROM x"
+        out.append(inner)
+        out.append(f"SELECT q.a, q.w FROM ({inner}) AS q WHERE q.a > 0")
+        out.append(f"SELECT q.a FROM ({inner}) AS q WHERE q.w = 1")
+        out.append(f"SELECT q.a, q.b FROM ({inner}) AS q WHERE q.b > 0 AND q.w > 0")
+        out.append(f"WITH t AS ({inner}) SELECT t.a, y.c FROM t JOIN y ON t.b = y.b WHERE t.a = 1")
+        out.append(f"SELECT q.a FROM ({inner}) AS q")
+        out.append(f"SELECT y.c, q.w FROM y LEFT JOIN ({inner}) AS q ON y.b = q.b")
+        out.append(f"SELECT q.a, q.w FROM (SELECT a, b, {w} AS w FROM x WHERE b > 0) AS q WHERE q.a = 1")
+    out.append("SELECT a, b FROM x QUALIFY ROW_NUMBER() OVER (PARTITION BY a ORDER BY b) = 1")
+    out.append("SELECT q.a FROM (SELECT a, b FROM x QUALIFY ROW_NUMBER() OVER (PARTITION BY a ORDER BY b) = 1) AS q WHERE q.b > 0")
+    out.append("SELECT DISTINCT ON (a) a, b FROM x ORDER BY a, b DESC")
+    return out
+
+
 def programs(tier: str, seed: int):
     rnd = random.Random(seed)
-    fams = [("multi_join", multi_join()), ("join", joins()), ("derived", derived()), ("subquery", subqueries()), ("aggregate", aggregates()), ("setop", setops()), ("order", ordering())]
+    fams = [("window", windows()), ("multi_join", multi_join()), ("join", joins()), ("derived", derived()), ("subquery", subqueries()), ("aggregate", aggregates()), ("setop", setops()), ("order", ordering())]
     out = []
     for name, progs in fams:
         # the whole family in both tiers (a seeded change was missed when quick sampled it); thorough raises K instead
